@@ -116,11 +116,33 @@ func (w *world) ensureDefs(t *term) {
 		w.ensureDefs(a)
 	}
 	w.defined[t] = true
+	if w.cfg.IntEncoding {
+		if t.op == "var" {
+			w.sol.send(fmt.Sprintf("(declare-const %s %s)", t.name, sortOfInt(t.w)))
+			if t.w > 0 {
+				w.sol.send(fmt.Sprintf("(assert (and (<= 0 %s) (< %s %s)))", t.name, t.name, pow2(t.w)))
+			}
+			return
+		}
+		b, ok := t.bodyInt()
+		if !ok {
+			panic(unsupported("term not expressible in the integer encoding: " + truncate(t.String(), 200)))
+		}
+		w.sol.send(fmt.Sprintf("(define-fun t%d () %s %s)", t.id, sortOfInt(t.w), b))
+		return
+	}
 	if t.op == "var" {
 		w.sol.send(fmt.Sprintf("(declare-const %s %s)", t.name, sortOf(t.w)))
 		return
 	}
 	w.sol.send(fmt.Sprintf("(define-fun t%d () %s %s)", t.id, sortOf(t.w), t.body()))
+}
+
+func (w *world) tref(t *term) string {
+	if w.cfg.IntEncoding {
+		return t.refInt()
+	}
+	return t.ref()
 }
 
 // feasible asks whether pc ∧ t is satisfiable: "sat", "unsat", "unknown".
@@ -141,7 +163,7 @@ func (w *world) feasible(t *term) string {
 	}
 	w.ensureDefs(t)
 	w.sol.send("(push)")
-	w.sol.send("(assert " + t.ref() + ")")
+	w.sol.send("(assert " + w.tref(t) + ")")
 	r := w.sol.checkSat()
 	w.sol.send("(pop)")
 	return r
@@ -152,7 +174,7 @@ func (w *world) assume(t *term) {
 		return
 	}
 	w.ensureDefs(t)
-	w.sol.send("(assert " + t.ref() + ")")
+	w.sol.send("(assert " + w.tref(t) + ")")
 	w.pc = append(w.pc, t)
 	w.pcSet[t] = true
 }
@@ -164,7 +186,7 @@ func (w *world) model(extra *term) (map[string]uint64, bool) {
 	}
 	w.sol.send("(push)")
 	if extra != nil {
-		w.sol.send("(assert " + extra.ref() + ")")
+		w.sol.send("(assert " + w.tref(extra) + ")")
 	}
 	r := w.sol.checkSat()
 	var m map[string]uint64
